@@ -13,7 +13,8 @@ theorem Inv.of_fields {cfg : Config} {sl : List SLine} {v : Nat} {st st' : Core}
     (h3 : st'.lastLineCounted = st.lastLineCounted) (h4 : st'.lineNumber = st.lineNumber)
     (h5 : st'.absoluteByteOffset = st.absoluteByteOffset) (h6 : st'.binaryByteOffset = st.binaryByteOffset)
     (h7 : st'.events = st.events) : Inv cfg sl v st' :=
-  ⟨h1 ▸ h.llv, h2 ▸ h.sunk, h.deliv, fun hc => h3 ▸ h.llc hc, h4 ▸ h.ln, h5 ▸ h.abs, h6 ▸ h.bin, h7 ▸ h.ev⟩
+  ⟨h1 ▸ h.llv, h2 ▸ h.sunk, h.deliv, by obtain ⟨c, hc, hl, hn⟩ := h.cnt; exact ⟨c, hc, fun hh => h3 ▸ hl hh, h4 ▸ hn⟩,
+    h5 ▸ h.abs, h6 ▸ h.bin, h7 ▸ h.ev⟩
 
 theorem aclOK_steps {A : Nat} {sl : List SLine} : ∀ (m v acl : Nat), AclOK A sl v acl → Unsel sl v (v + m) →
     m ≤ acl → AclOK A sl (v + m) (acl - m) := by
